@@ -240,7 +240,8 @@ func cmdCheck(args []string) {
 				lines = append(lines, fmt.Sprintf("KNOWN-FINDING: property=%s %s [%s]", prop, kf.What, full))
 				knownHit[kf.Label] = true
 			}
-		case len(undecidedFns[o.Fn]) > 0:
+		case len(undecidedFns[o.Fn]) > 0 && !(o.NotExcluded && strings.HasPrefix(o.Label, "frame[backing-array]")):
+			// (an in-place rewrite of a slice the caller still sees is reported even when the rest of the function is outside the subset)
 			rec.Verdict = "UNDECIDED"
 			undecided = append(undecided, fmt.Sprintf("UNDECIDED property=%s obligation=%s reason=%s", prop, full, undecidedFns[o.Fn][0]))
 		case st == "sat" || inBase.has(full) || o.NotExcluded:
